@@ -136,6 +136,13 @@ def case(ctx, i, rng):
             fc = f[comp] if comp else f
             n = ufl.FacetNormal(U.mesh)
             e = e + rng.choice([lambda: ufl.jump(fc), lambda: ufl.avg(fc), lambda: ufl.jump(fc, n)[0], lambda: ufl.inner(ufl.jump(ufl.grad(fc)), n("+"))])()
+        if rng.random() < 0.2:
+            # a labelled variable whose body is written without restrictions, seen from both sides in one integrand
+            # (jump / avg of a stored quantity): each side must get its own propagated body
+            Gv = Gen(U, rng, cplx=cplx, deriv=0, cond=False, math=rng.random() < 0.5, geom=False, restrict=False)
+            sv = ufl.variable(Gv.expr((), rng.choice([1, 2])))
+            e = e + rng.choice([lambda: ufl.jump(sv), lambda: ufl.avg(sv), lambda: sv("+") * sv("-"), lambda: sv("-") + 2 * sv("+"), lambda: sv("-") * sv("-") - sv("+")])()
+            ctx.count("variable_on_both_sides")
         if double:
             sub = G.expr((), 1)
             e = e + sub("+") if rng.random() < 0.5 else e + sub("-")
